@@ -27,6 +27,7 @@ type GenOpts struct {
 var names = []string{"a", "b", "c", "d", "e", "f", "g", "h"}
 var vvals = []string{"one", "two"}
 var pairvals = []string{"one+two", "two+one", "one+one"}
+var mats = [][][]string{{{"1", "2"}, {"x", "y"}}, {{"p"}, {"q", "r"}}, {{"a", "b"}, {"c"}, {"d", "e"}}, {{"1", "2", "3"}}}
 var items = [][]string{{"one", "two"}, {"two", "one"}, {"x", "y"}, {"one"}, {"x", "one", "two"}}
 
 func pick[T any](r *rand.Rand, xs []T) T { return xs[r.Intn(len(xs))] }
@@ -35,7 +36,11 @@ func genCS(r *rand.Rand, o GenOpts, callee string, allowFor bool) CallSite {
 	cs := CallSite{Task: callee}
 	switch {
 	case allowFor && r.Float64() < o.PFor:
-		cs.For = append([]string(nil), pick(r, items)...)
+		if r.Float64() < 0.35 {
+			cs.Mat = pick(r, mats)
+		} else {
+			cs.For = append([]string(nil), pick(r, items)...)
+		}
 	case r.Float64() < o.PPassV:
 		cs.V = pick(r, []string{"one", "two", "$"})
 		if o.PPair > 0 && r.Float64() < o.PPair {
@@ -108,7 +113,11 @@ func Gen(r *rand.Rand, o GenOpts, id string) *Program {
 						}
 					}
 					if t.Run != "when_changed" && r.Float64() < o.PFor/2 {
-						c.For = append([]string(nil), pick(r, items)...)
+						if r.Float64() < 0.35 {
+							c.Mat = pick(r, mats)
+						} else {
+							c.For = append([]string(nil), pick(r, items)...)
+						}
 					}
 					t.Cmds = append(t.Cmds, c)
 				}
@@ -145,6 +154,7 @@ func Normalize(p *Program) {
 			c := &t.Cmds[i]
 			if c.K == "sh" && t.Run == "when_changed" {
 				c.For = nil
+				c.Mat = nil
 			}
 		}
 		// a root that is when_changed gets no P; fine. An internal guard only makes sense on roots.
@@ -164,7 +174,17 @@ func Size(p *Program) int {
 		}
 		t := p.Tasks[name]
 		n := 0
+		prod := func(m [][]string) int {
+			n := 1
+			for _, r := range m {
+				n *= len(r)
+			}
+			return n
+		}
 		mult := func(cs *CallSite) int {
+			if len(cs.Mat) > 0 {
+				return prod(cs.Mat)
+			}
 			if len(cs.For) > 0 {
 				return len(cs.For)
 			}
@@ -177,7 +197,9 @@ func Size(p *Program) int {
 			c := &t.Cmds[i]
 			switch c.K {
 			case "sh", "dsh":
-				if len(c.For) > 0 {
+				if len(c.Mat) > 0 {
+					n += prod(c.Mat)
+				} else if len(c.For) > 0 {
 					n += len(c.For)
 				} else {
 					n++
@@ -363,6 +385,12 @@ func Core() []*Program {
 			"b": {Cmds: []Cmd{sh(0)}},
 		}))
 	}
+	// matrix loops over commands, task calls and deps (row-major order of the declared keys)
+	add(mk("matrix", 1, []string{"a", "b"}, map[string]*Task{
+		"a": {Deps: []CallSite{{Task: "b", Mat: [][]string{{"p"}, {"q", "r"}}}},
+			Cmds: []Cmd{{K: "sh", Mat: [][]string{{"1", "2"}, {"x", "y"}}}, {K: "call", CS: &CallSite{Task: "b", Mat: [][]string{{"a", "b"}, {"c"}, {"d", "e"}}}}, sh(0)}},
+		"b": {Cmds: []Cmd{sh(0)}},
+	}))
 	// guards in every position
 	for _, g := range []string{"platform", "platreq", "requires", "enum", "precond", "prompt", "uptodate"} {
 		add(mk("guard-root-"+g, 0, []string{"a", "b"}, map[string]*Task{
